@@ -1,4 +1,49 @@
-(* C05 — statements are being added; see DESIGN.md section 7. *)
-From XSG.Model Require Import Strings.
-Example C05_placeholder : True. Proof. exact I. Qed.
-Print Assumptions C05_placeholder.
+(* C05 — Rendering is deterministic: no field name, suffix, order or struct name depends on hash
+   seeds.  The model threads an arbitrary rearrangement `ord` through the only place where the
+   code ITERATES a hash container (the final loop of compute_name_hints; every other HashMap is
+   only looked up, and since repair e3f005f tag_optional_children walks the child list).  The
+   output does not depend on `ord`.  Threads / processes do not exist in the model: that part of
+   the property is decided by the repetition check of bin/check C05 (execution).
+   Only statements; every proof is `exact <lemma of Proofs/NamingProofs.v>`. *)
+From Coq Require Import String Permutation.
+From XSG.Model Require Import Strings Necessity Element Render.
+From XSG.Proofs Require Import NamingProofs.
+Local Open Scope list_scope.
+
+Theorem C05_hash_order_independent_abs :
+  forall ord, (forall b, Permutation (ord b) b) -> forall o e, render_abs_ord ord o e = render_abs o e.
+Proof. exact render_abs_ord_independent. Qed.
+
+Theorem C05_hash_order_independent :
+  forall ord, (forall b, Permutation (ord b) b) ->
+  forall o e, to_serde_struct_ord ord o e = to_serde_struct o e.
+Proof. exact to_serde_struct_ord_independent. Qed.
+
+(* any two hash orders give the same bytes *)
+Theorem C05_any_two_orders :
+  forall ord1 ord2, (forall b, Permutation (ord1 b) b) -> (forall b, Permutation (ord2 b) b) ->
+  forall o e, to_serde_struct_ord ord1 o e = to_serde_struct_ord ord2 o e.
+Proof.
+  intros ord1 ord2 H1 H2 o e.
+  exact (eq_trans (to_serde_struct_ord_independent ord1 H1 o e)
+                  (eq_sym (to_serde_struct_ord_independent ord2 H2 o e))).
+Qed.
+
+(* the buckets the hash map holds have pairwise different keys: look-ups are well defined *)
+Theorem C05_bucket_keys_unique : forall e, NoDup (map fst (fill_names e [] [])).
+Proof. exact fill_names_root_nodup. Qed.
+
+(* non-vacuity: a lawful non-identity order on a tree with two same-named positions *)
+Example C05_example :
+  let e := Elem (s "r") false true 1 []
+             [(Mand, Elem (s "a") false true 1 [(Mand, s "k")] [(Mand, Elem (s "x") false true 1 [(Mand, s "k")] [] (Some 0%nat))] (Some 0%nat));
+              (Mand, Elem (s "b") false true 1 [] [(Mand, Elem (s "x") false true 1 [(Mand, s "k")] [] (Some 0%nat))] (Some 1%nat))] None in
+  compute_name_hints_ord (@rev _) e <> compute_name_hints e
+  /\ to_serde_struct_ord (@rev _) quick_xml_de e = to_serde_struct quick_xml_de e.
+Proof. split; [vm_compute; discriminate | vm_compute; reflexivity]. Qed.
+
+Print Assumptions C05_hash_order_independent_abs.
+Print Assumptions C05_hash_order_independent.
+Print Assumptions C05_any_two_orders.
+Print Assumptions C05_bucket_keys_unique.
+Print Assumptions C05_example.
